@@ -680,7 +680,9 @@ func c19Ops() []c19Op {
 		}, func(x any) string {
 			r := x.([2]any)
 			if r[1] != nil {
-				return "err" // which of several errors is reported depends on map iteration order (C14): only the class
+				// the reported error (message included) is a function of the inputs since the C14 repairs of
+				// recordLiteralEval / doInEval
+				return "err " + r[1].(error).Error()
 			}
 			v, _ := r[0].(types.Value)
 			return "ok " + vh.ShowValue(v)
